@@ -264,7 +264,7 @@ def kani_counterexample(scratch, ob, res, hto, native_exe_cb):
 
 
 DEFAULT_ALPHABET = ["a", " ", "\n", ":", ";", "{", "}", "(", ")", "/", "*", "#", ",", "\"", "\\", "$", "@", "-", "1"]
-PREFIXES = ["", "a{b:", "$a: 1 ", "a\n  b: c ", "a\n  ", "@media ", "a{", "@charset \"a\"", "@import \"a.css\"", "@-moz-document "]
+PREFIXES = ["", "a{b:", "$a: 1 ", "a\n  b: c ", "a\n  ", "@media ", "a{", "@charset \"a\"", "@import \"a.css\"", "@-moz-document ", "@import "]
 
 
 def witness_search(scratch, fn_source_file, fn_text, budget_s=240):
